@@ -393,11 +393,86 @@ func (b *typeBuilder) crossPackage() {
 	}}
 }
 
+// composites: compositions the two-struct graphs do not reach - pointers around and inside containers, three
+// levels of nesting, an embedded pointer, embedding across packages, and containers of enums and aliases.
+func (b *typeBuilder) composites() {
+	type comp struct {
+		name  string
+		field string   // Go type of Root.F (§)
+		kinds []string // acceptable kinds of property f (§)
+		embed string   // embedded field text instead of F ("" = none)
+		allOf string   // expected allOf member (§)
+	}
+	comps := []comp{
+		{"pointer-to-slice-of-struct", "*[]Leaf§", []string{"array<$ref:Leaf§>"}, "", ""},
+		{"slice-of-pointers-to-struct", "[]*Leaf§", []string{"array<$ref:Leaf§>"}, "", ""},
+		{"slice-of-slices-of-struct", "[][]Leaf§", []string{"array<array<$ref:Leaf§>>"}, "", ""},
+		{"map-of-slices-of-struct", "map[string][]Leaf§", []string{"map<array<$ref:Leaf§>>"}, "", ""},
+		{"map-of-pointers-to-struct", "map[string]*Leaf§", []string{"map<$ref:Leaf§>"}, "", ""},
+		{"slice-of-enum", "[]CE§", []string{"array<$ref:CE§>"}, "", ""},
+		{"map-of-enum", "map[string]CE§", []string{"map<$ref:CE§>"}, "", ""},
+		{"slice-of-alias", "[]CA§", []string{"array<$ref:CA§>", "array<string>"}, "", ""},
+		{"pointer-to-enum", "*CE§", []string{"$ref:CE§"}, "", ""},
+		{"embedded-pointer", "", nil, "*Leaf§", "Leaf§"},
+		{"three-levels", "Mid§", []string{"$ref:Mid§"}, "", ""},
+	}
+	for _, c := range comps {
+		for _, usage := range []string{"return", "body"} {
+			id := b.nextID()
+			sub := func(s string) string { return strings.ReplaceAll(s, "§", id) }
+			decl := sub("type Leaf§ struct {\n\tV int `json:\"v\"`\n}\n\ntype Mid§ struct {\n\tLeaf Leaf§ `json:\"leaf\"`\n\tLeaves []Leaf§ `json:\"leaves\"`\n}\n\ntype CE§ string\n\nconst (\n\tCE§A CE§ = \"a\"\n\tCE§B CE§ = \"b\"\n)\n\ntype CA§ string\n\n")
+			root := ExpSchema{Kind: "struct", Props: map[string][]string{"keep": {"string"}}}
+			exp := TypeExpect{Schemas: map[string]ExpSchema{}}
+			leaf := ExpSchema{Kind: "struct", Props: map[string][]string{"v": {"integer"}}}
+			if c.embed != "" {
+				decl += sub("type Root§ struct {\n\tKeep string `json:\"keep\"`\n\t" + c.embed + "\n}\n")
+				root.AllOf = []string{sub(c.allOf)}
+				exp.Schemas[sub("Leaf§")] = leaf
+			} else {
+				decl += sub("type Root§ struct {\n\tKeep string `json:\"keep\"`\n\tF " + c.field + " `json:\"f\"`\n}\n")
+				var kinds []string
+				for _, k := range c.kinds {
+					kinds = append(kinds, sub(k))
+				}
+				root.Props["f"] = kinds
+				switch {
+				case strings.Contains(c.field, "Leaf§"):
+					exp.Schemas[sub("Leaf§")] = leaf
+				case strings.Contains(c.field, "Mid§"):
+					exp.Schemas[sub("Leaf§")] = leaf
+					exp.Schemas[sub("Mid§")] = ExpSchema{Kind: "struct", Props: map[string][]string{"leaf": {sub("$ref:Leaf§")}, "leaves": {sub("array<$ref:Leaf§>")}}}
+				case strings.Contains(c.field, "CE§"):
+					exp.Schemas[sub("CE§")] = ExpSchema{Kind: "enum", Values: []string{"a", "b"}, Base: "string"}
+				case strings.Contains(c.field, "CA§"):
+					exp.Optional = append(exp.Optional, sub("CA§")) // a primitive alias may be inlined or referenced
+				}
+			}
+			exp.Schemas[sub("Root§")] = root
+			for _, n := range []string{"Leaf§", "Mid§", "CE§", "CA§"} {
+				if _, ok := exp.Schemas[sub(n)]; !ok && !contains(exp.Optional, sub(n)) {
+					exp.Absent = append(exp.Absent, sub(n))
+				}
+			}
+			b.addCase(id, "type-composite", decl, []scen.Method{usageMethod(id, usage, sub("Root§"))}, exp, map[string]string{"composite": c.name, "usage": usage}, nil)
+		}
+	}
+}
+
+func contains(l []string, s string) bool {
+	for _, x := range l {
+		if x == s {
+			return true
+		}
+	}
+	return false
+}
+
 // Types builds the C07 family.
 func Types(tier string) (Family, map[string]TypeExpect, []MetaPair) {
 	b := &typeBuilder{exp: map[string]TypeExpect{}}
 	b.graphs(tier)
 	b.leafCases(tier)
+	b.composites()
 	pairs := b.metamorphic(tier)
 	b.crossPackage()
 	return Family{Name: "types", Cases: b.cases, BaseCfg: DefaultCfg, PackSize: 60}, b.exp, pairs
